@@ -1,8 +1,222 @@
-(* C15: placeholder until the Reflect proofs are merged; a concrete run of the model. *)
-From BCL Require Import Model.Reflect.
+(* C15: Bind never panics and never silently drops or coerces data.
+
+   Model/Reflect.v is the transcription of reflect.go (copyBlocks / copyBlock / setField) together with the
+   parts of package reflect it relies on (FieldByNameFunc's breadth-first search with annihilation of ambiguous
+   names, FieldByIndexErr's pointer indirections, AssignableTo on the value kinds BCL produces).  The harness
+   runs it against the real Bind on generated target types (reflect.StructOf + compiled-in named types) and
+   blocks.  The theorems:
+     total     - Bind returns a value or an error for every target and binding (no panic branch of the model
+                 is reachable; the depth bound 64 is the model's recursion fuel, the VM limits nesting to 16);
+     errors    - each defect named in the property is an error, and the first faulty field in key order is
+                 the one reported;
+     faithful  - a nil return means every scalar of the block, recursively every nested block, and a non-empty
+                 name were stored unchanged in exported, assignable, pairwise NON-OVERLAPPING fields.  This
+                 theorem was false before the repair recorded in known_findings.txt ("fixed: C15 ... embedded"):
+                 a promoted field and a nested block stored into the embedded struct overwrote each other;
+     slice     - a slice target gets a fresh slice of exactly the bound blocks, or, on any error, nothing. *)
+From Coq Require Import List Lia Permutation.
+From BCL Require Import Model.Reflect Proofs.ReflectProofs.
+Open Scope N_scope.
+
+(* Bind never panics *)
+Theorem C15_total : forall tg b, depth_ok b -> bind tg b <> BPanic.
+Proof. first [exact ReflectProofs.C15_total | apply ReflectProofs.C15_total]. Qed.
+Print Assumptions C15_total.
+
+(* nil only if everything was stored unchanged, in distinct non-overlapping exported fields *)
+Theorem C15_faithful : forall tn fs v0 bt bn kvs v',
+  shaped (TStruct tn fs) v0 ->
+  bind (TgtPtr (TStruct tn fs) v0) (BdStruct (VBlock bt bn kvs)) = BOk (GPtrTo v') ->
+  (* 1. every scalar value is found, unchanged, in the exported field its key maps to *)
+  (forall k x, In (k, x) kvs -> ~ is_block x ->
+     exists path fld, find_field fs k = Some (path, fld) /\ fexp fld = true /\
+                      lookup_path v' path = Some (GVal x) /\ assignable x (ftyp fld) = true) /\
+  (* 2. the entries go to pairwise non-overlapping fields: no two keys share a field, and none
+        addresses a struct containing another one's field *)
+  NoDup (map (pathof fs) (map fst kvs)) /\
+  (forall k1 k2, In k1 (map fst kvs) -> In k2 (map fst kvs) -> k1 <> k2 ->
+                 path_overlap (pathof fs k1) (pathof fs k2) = false) /\
+  (* 3. a non-empty block name is stored in the field found for "Name"; no key overlaps it *)
+  (bn <> [] ->
+     exists path fld, find_field fs (bs "Name") = Some (path, fld) /\ fexp fld = true /\
+                      lookup_path v' path = Some (GVal (VStr bn)) /\
+                      forall k, In k (map fst kvs) -> path_overlap (pathof fs k) path = false).
+Proof. first [exact ReflectProofs.C15_faithful | apply ReflectProofs.C15_faithful]. Qed.
+Print Assumptions C15_faithful.
+
+(* the same through nested blocks at every level *)
+Theorem C15_faithful_deep : forall tn fs v0 blk v',
+  shaped (TStruct tn fs) v0 ->
+  bind (TgtPtr (TStruct tn fs) v0) (BdStruct blk) = BOk (GPtrTo v') ->
+  stored (TStruct tn fs) v' blk.
+Proof. first [exact ReflectProofs.C15_faithful_deep | apply ReflectProofs.C15_faithful_deep]. Qed.
+Print Assumptions C15_faithful_deep.
+
+(* success excludes every defect *)
+Theorem C15_errors_none : forall tn fs v0 bt bn kvs w,
+  bind (TgtPtr (TStruct tn fs) v0) (BdStruct (VBlock bt bn kvs)) = BOk w ->
+  (tn = [] \/ unsnake_eq tn bt = true) /\
+  (bn <> [] -> exists p fld, find_field fs (bs "Name") = Some (p, fld) /\ fexp fld = true /\
+                             assignable (VStr bn) (ftyp fld) = true /\
+                             forall k, In k (map fst kvs) -> path_overlap (pathof fs k) p = false) /\
+  (forall k x, In (k, x) kvs ->
+     exists p fld, find_field fs k = Some (p, fld) /\ fexp fld = true /\ x <> VNil /\
+       match x with
+       | VBlock _ _ _ => exists n' fs', ftyp fld = TStruct n' fs'
+       | _ => assignable x (ftyp fld) = true
+       end) /\
+  NoDup (map (pathof fs) (map fst kvs)) /\
+  (forall k1 k2, In k1 (map fst kvs) -> In k2 (map fst kvs) -> k1 <> k2 ->
+                 path_overlap (pathof fs k1) (pathof fs k2) = false).
+Proof. first [exact ReflectProofs.C15_errors_none | apply ReflectProofs.C15_errors_none]. Qed.
+Print Assumptions C15_errors_none.
+
+(* the first faulty field in sorted key order is the error reported *)
+Theorem C15_errors_first : forall tn fs v0 bt bn kvs pre k x post st1 st' e,
+  (tn = [] \/ unsnake_eq tn bt = true) ->
+  name_step R63 tn fs v0 bn = inr st1 ->
+  sorted_fields kvs = pre ++ (k, x) :: post ->
+  run_fields R63 tn fs pre st1 = inr st' ->
+  set_field_ R63 tn fs k x false st' = inl (inl e) ->
+  bind (TgtPtr (TStruct tn fs) v0) (BdStruct (VBlock bt bn kvs)) = BErr e.
+Proof. first [exact ReflectProofs.C15_errors_first | apply ReflectProofs.C15_errors_first]. Qed.
+Print Assumptions C15_errors_first.
+
+(* a missing counterpart *)
+Theorem C15_errors_mapping : forall rec tn fs k x opt st,
+  find_field fs k = None -> set_field_ rec tn fs k x opt st = inl (inl EMapping).
+Proof. first [exact ReflectProofs.C15_errors_mapping | apply ReflectProofs.C15_errors_mapping]. Qed.
+Print Assumptions C15_errors_mapping.
+
+(* an unexported counterpart *)
+Theorem C15_errors_unexported : forall rec tn fs k x opt st p fld,
+  find_field fs k = Some (p, fld) -> fexp fld = false ->
+  set_field_ rec tn fs k x opt st = inl (inl EUnexported).
+Proof. first [exact ReflectProofs.C15_errors_unexported | apply ReflectProofs.C15_errors_unexported]. Qed.
+Print Assumptions C15_errors_unexported.
+
+(* a nil value *)
+Theorem C15_errors_nil_value : forall rec tn fs k opt st p fld,
+  find_field fs k = Some (p, fld) -> fexp fld = true ->
+  set_field_ rec tn fs k VNil opt st = inl (inl ENilValue).
+Proof. first [exact ReflectProofs.C15_errors_nil_value | apply ReflectProofs.C15_errors_nil_value]. Qed.
+Print Assumptions C15_errors_nil_value.
+
+(* a type mismatch: no coercion (assignable_no_coercion) *)
+Theorem C15_errors_type_mismatch : forall rec tn fs k x st p fld,
+  find_field fs k = Some (p, fld) -> fexp fld = true -> x <> VNil -> ~ is_block x ->
+  (forall q, In q (snd st) -> path_overlap p q = false) ->
+  assignable x (ftyp fld) = false ->
+  set_field_ rec tn fs k x false st = inl (inl ETypeMismatch) \/
+  (length p > 1 /\ set_field_ rec tn fs k x false st = inl (inl ENilEmbedded))%nat.
+Proof. first [exact ReflectProofs.C15_errors_type_mismatch | apply ReflectProofs.C15_errors_type_mismatch]. Qed.
+Print Assumptions C15_errors_type_mismatch.
+
+(* a non-struct destination for a nested block *)
+Theorem C15_errors_block_not_struct : forall order fu tn fs k bt bn bf st p fld,
+  find_field fs k = Some (p, fld) -> fexp fld = true ->
+  (forall q, In q (snd st) -> path_overlap p q = false) ->
+  (forall n' fs', ftyp fld <> TStruct n' fs') ->
+  set_field_ (copy_block (S fu) order) tn fs k (VBlock bt bn bf) false st = inl (inl EBlockNotStruct) \/
+  (length p > 1 /\
+   set_field_ (copy_block (S fu) order) tn fs k (VBlock bt bn bf) false st = inl (inl ENilEmbedded))%nat.
+Proof. first [exact ReflectProofs.C15_errors_block_not_struct | apply ReflectProofs.C15_errors_block_not_struct]. Qed.
+Print Assumptions C15_errors_block_not_struct.
+
+(* two keys addressing the same or overlapping storage *)
+Theorem C15_errors_dup_field : forall rec tn fs k x cur used p fld q,
+  find_field fs k = Some (p, fld) -> fexp fld = true -> x <> VNil ->
+  In q used -> path_overlap p q = true ->
+  set_field_ rec tn fs k x false (cur, used) = inl (inl EDupField).
+Proof. first [exact ReflectProofs.C15_errors_dup_field | apply ReflectProofs.C15_errors_dup_field]. Qed.
+Print Assumptions C15_errors_dup_field.
+
+(* nil binding *)
+Theorem C15_errors_no_binding : forall tg, bind tg BdNone = BErr ENoBinding.
+Proof. first [exact ReflectProofs.C15_errors_no_binding | apply ReflectProofs.C15_errors_no_binding]. Qed.
+Print Assumptions C15_errors_no_binding.
+
+(* nil target *)
+Theorem C15_errors_nil_iface : forall b, b <> BdNone -> bind TgtNilIface b = BErr ENotPointer.
+Proof. first [exact ReflectProofs.C15_errors_nil_iface | apply ReflectProofs.C15_errors_nil_iface]. Qed.
+Print Assumptions C15_errors_nil_iface.
+
+(* non-pointer target *)
+Theorem C15_errors_not_pointer : forall t v b, b <> BdNone -> (forall t', t <> TPtr t') ->
+  bind (TgtValue t v) b = BErr ENotPointer.
+Proof. first [exact ReflectProofs.C15_errors_not_pointer | apply ReflectProofs.C15_errors_not_pointer]. Qed.
+Print Assumptions C15_errors_not_pointer.
+
+(* nil pointer target *)
+Theorem C15_errors_nil_pointer : forall t,
+  (forall x, bind (TgtNilPtr t) (BdStruct x) = BErr ENotStruct) /\
+  (forall l, bind (TgtNilPtr t) (BdSlice l) = BErr ENotSlice) /\
+  bind (TgtNilPtr t) BdUnknown = BErr EUnknownBinding.
+Proof. first [exact ReflectProofs.C15_errors_nil_pointer | apply ReflectProofs.C15_errors_nil_pointer]. Qed.
+Print Assumptions C15_errors_nil_pointer.
+
+(* struct binding, pointer to a non-struct *)
+Theorem C15_errors_not_struct : forall t v x, (forall n fs, t <> TStruct n fs) ->
+  bind (TgtPtr t v) (BdStruct x) = BErr ENotStruct.
+Proof. first [exact ReflectProofs.C15_errors_not_struct | apply ReflectProofs.C15_errors_not_struct]. Qed.
+Print Assumptions C15_errors_not_struct.
+
+(* slice binding, pointer to a non-slice *)
+Theorem C15_errors_not_slice : forall t v l, (forall et, t <> TSlice et) ->
+  bind (TgtPtr t v) (BdSlice l) = BErr ENotSlice.
+Proof. first [exact ReflectProofs.C15_errors_not_slice | apply ReflectProofs.C15_errors_not_slice]. Qed.
+Print Assumptions C15_errors_not_slice.
+
+(* slice of non-structs *)
+Theorem C15_errors_elem_not_struct : forall et v l, (forall n fs, et <> TStruct n fs) ->
+  bind (TgtPtr (TSlice et) v) (BdSlice l) = BErr EElemNotStruct.
+Proof. first [exact ReflectProofs.C15_errors_elem_not_struct | apply ReflectProofs.C15_errors_elem_not_struct]. Qed.
+Print Assumptions C15_errors_elem_not_struct.
+
+(* struct type name vs block type *)
+Theorem C15_errors_type_name : forall n fs v bt bn bf, n <> [] -> unsnake_eq n bt = false ->
+  bind (TgtPtr (TStruct n fs) v) (BdStruct (VBlock bt bn bf)) = BErr ETypeName.
+Proof. first [exact ReflectProofs.C15_errors_type_name | apply ReflectProofs.C15_errors_type_name]. Qed.
+Print Assumptions C15_errors_type_name.
+
+(* a slice target is replaced as a whole or not at all *)
+Theorem C15_slice_atomic : forall et v0 blks,
+  match bind (TgtPtr (TSlice et) v0) (BdSlice blks) with
+  | BErr _ => True                                   (* no new value: the old slice stays *)
+  | BOk w => exists n efs l, et = TStruct n efs /\ w = GPtrTo (GSlice l) /\ length l = length blks /\
+             forall i blk, nth_error blks i = Some blk ->
+               exists e, nth_error l i = Some e /\ copy_block 64 sorted_fields et (zero_struct efs) blk = BOk e
+  | BPanic => exists n efs blk, et = TStruct n efs /\ In blk blks /\
+              copy_block 64 sorted_fields et (zero_struct efs) blk = BPanic
+  end.
+Proof. first [exact ReflectProofs.C15_slice_atomic | apply ReflectProofs.C15_slice_atomic]. Qed.
+Print Assumptions C15_slice_atomic.
+
+Theorem C15_slice_atomic_total : forall et v0 blks,
+  Forall (fun v => (bdepth v <= 64)%nat) blks ->
+  (exists e, bind (TgtPtr (TSlice et) v0) (BdSlice blks) = BErr e) \/
+  (exists n efs l, et = TStruct n efs /\
+     bind (TgtPtr (TSlice et) v0) (BdSlice blks) = BOk (GPtrTo (GSlice l)) /\
+     Forall2 (fun blk e => copy_block 64 sorted_fields et (zero_struct efs) blk = BOk e) blks l).
+Proof. first [exact ReflectProofs.C15_slice_atomic_total | apply ReflectProofs.C15_slice_atomic_total]. Qed.
+Print Assumptions C15_slice_atomic_total.
+
+Theorem C15_slice_first_error : forall n efs v0 pre blk post es e,
+  Forall2 (fun b x => copy_block 64 sorted_fields (TStruct n efs) (zero_struct efs) b = BOk x) pre es ->
+  copy_block 64 sorted_fields (TStruct n efs) (zero_struct efs) blk = BErr e ->
+  bind (TgtPtr (TSlice (TStruct n efs)) v0) (BdSlice (pre ++ blk :: post)) = BErr e.
+Proof. first [exact ReflectProofs.C15_slice_first_error | apply ReflectProofs.C15_slice_first_error]. Qed.
+Print Assumptions C15_slice_first_error.
+
+(* previous elements never matter *)
+Theorem C15_slice_discards_old : forall et v0 v1 blks,
+  bind (TgtPtr (TSlice et) v0) (BdSlice blks) = bind (TgtPtr (TSlice et) v1) (BdSlice blks).
+Proof. first [exact ReflectProofs.C15_slice_discards_old | apply ReflectProofs.C15_slice_discards_old]. Qed.
+Print Assumptions C15_slice_discards_old.
+
+(* non-vacuity *)
 Example C15_example :
   bind (TgtPtr (TStruct [] [Field (bs "Name") true false [] TString; Field (bs "Port") true false [] TInt]) GZero)
        (BdStruct (VBlock (bs "t") (bs "n") [(bs "port", VInt 5)]))
   = BOk (GPtrTo (GStruct [GVal (VStr (bs "n")); GVal (VInt 5)])).
 Proof. vm_compute. reflexivity. Qed.
-Print Assumptions C15_example.
